@@ -894,6 +894,16 @@ func c04Scripted(cfg *c04Cfg, faults []c04Fault) c04Policy {
 // c04Random: random interleaving of starts, deliveries (any in-flight index) and faults
 func c04Random(cfg *c04Cfg, rng *Rng, faultPct int, canBump bool) c04Policy {
 	started, n, epi := 0, 0, 0
+	// time passes only in scenarios without B-initiated Observe notifications: when the state of the private
+	// re-fetch of a block-wise notification expires half-way, a late block is still paired with the expired
+	// request (getSentRequest does not look at deadlines) and the re-assembled notification is handed over
+	// under the private token (observation O5 in notes/C04.md, replayable history there)
+	allowTime := true
+	for _, x := range cfg.exch {
+		if x.kind == 2 {
+			allowTime = false
+		}
+	}
 	var epilogue []c04Ev
 	return func(w *c04World, _ int) (c04Ev, bool) {
 		for n < 90 {
@@ -918,7 +928,16 @@ func c04Random(cfg *c04Cfg, rng *Rng, faultPct int, canBump bool) c04Policy {
 			if !rng.Chance(faultPct) {
 				return c04Ev{'D', j}, true
 			}
-			switch rng.Intn(6) {
+			switch rng.Intn(7) {
+			case 6:
+				// virtual time: age (short of / beyond the deadline) or sweep now
+				if !allowTime {
+					return c04Ev{'D', j}, true
+				}
+				if rng.Chance(60) {
+					return c04Ev{'A', c04AgeSteps[rng.Intn(len(c04AgeSteps))]}, true
+				}
+				return c04Ev{'W', rng.Intn(2)}, true
 			case 0:
 				return c04Ev{'U', j}, true
 			case 1:
@@ -1443,8 +1462,12 @@ func c04ExpiryFamily(e *Emitter, thorough bool) {
 		for p := 1; p < nd; p++ {
 			for ai, age := range ages {
 				for si, sw := range sweeps {
-					for _, bump := range []bool{true, false} {
+					for _, variant := range []int{0, 1, 2} {
+						bump, late := variant != 1, variant == 2
 						if !bump && (!thorough || b.code != 1) {
+							continue
+						}
+						if late && (len(sw) != 1 || (!thorough && ai != 0)) {
 							continue
 						}
 						total := 0
@@ -1464,11 +1487,18 @@ func c04ExpiryFamily(e *Emitter, thorough bool) {
 							pre = append(pre, c04Ev{'D', 0})
 						}
 						mid := append([]c04Ev{{'T', 0}}, age...)
-						mid = append(mid, sw...)
+						if !late {
+							mid = append(mid, sw...)
+						}
 						if bump {
 							mid = append(mid, c04Ev{'B', 0})
 						}
 						mid = append(mid, c04Ev{'S', 0})
+						if late {
+							// the sweep runs when the new exchange is already under way (its onExpire callbacks
+							// meet the state of the new exchange)
+							mid = append(mid, sw...)
+						}
 						stage, i, n, epi := 0, 0, 0, 0
 						epilogue := []c04Ev{{'T', 0}, {'E', 0}, {'E', 1}}
 						pol := func(w *c04World, _ int) (c04Ev, bool) {
@@ -1503,7 +1533,11 @@ func c04ExpiryFamily(e *Emitter, thorough bool) {
 							return c04Ev{}, false
 						}
 						r := c04Run(cfg, pol)
-						c04Emit(e, cfg, r, "expiry", "expiry-"+b.name, fmt.Sprintf("age-%d", ai), fmt.Sprintf("sweep-%d", si))
+						lateTag := "sweep-before-restart"
+						if late {
+							lateTag = "sweep-after-restart"
+						}
+						c04Emit(e, cfg, r, "expiry", "expiry-"+b.name, fmt.Sprintf("age-%d", ai), fmt.Sprintf("sweep-%d", si), lateTag)
 					}
 				}
 			}
